@@ -73,7 +73,7 @@ def _parse_sections(stdout):
     """-> [(header_path or None, [(num, date)])]"""
     sections = []
     cur = None
-    for line in stdout.splitlines():
+    for line in stdout.split("\n"):
         if line.startswith("Info with history at path: "):
             cur = (line[len("Info with history at path: "):], [])
             sections.append(cur)
@@ -191,7 +191,7 @@ def execute(sc, ctx):
                 if rec["path"] == relp:
                     for e in rec["entries"]:
                         want.append((num, m["creatorinfo"]["creationdate"], e["fmt"], e["digest"], e["action"]))
-        lines = r.stdout.splitlines()
+        lines = r.stdout.split("\n")
         got = []
         other = []
         for i, line in enumerate(lines):
